@@ -118,7 +118,7 @@ namespace Givaro {
     typename ModularExtended<float>::Element&
     ModularExtended<float>::init(typename ModularExtended<float>::Element& r, const int32_t a) const
     {
-        r = static_cast<Element>(std::abs(a) % _lp);
+        r = static_cast<Element>(std::abs(a % int32_t(_lp)));
         if (a < 0) negin(r);
         return r;
     }
@@ -138,7 +138,7 @@ namespace Givaro {
     typename ModularExtended<float>::Element&
     ModularExtended<float>::init(typename ModularExtended<float>::Element& r, const int64_t a) const
     {
-        r = static_cast<Element>(std::abs(a) % int64_t(_lp));
+        r = static_cast<Element>(std::abs(a % int64_t(_lp)));
         if (a < 0) negin(r);
         return r;
     }
